@@ -204,6 +204,8 @@ def run_session(cfg, seed, script, fate_factory, phases_gap=None, yield_on_send=
                 await srv_done.wait()
                 return
             ep["s"] = client
+            out.handler_started = True
+            out.server_pid = client.pid()
             out.rnd["s"] = (client.sequence_mgr.initial_unreliable_id, client.connection_check, client.local_session_id)
             if cfg.start:
                 client.sequence_mgr.counters[0].next_id = cfg.start[1]
@@ -221,6 +223,8 @@ def run_session(cfg, seed, script, fate_factory, phases_gap=None, yield_on_send=
         out.accepted, out.send_errors = [], []
         out.connect_error = None
         out.rnd = {}
+        out.server_pid = None
+        out.handler_started = False
         out.extra_handlers = []
         out.creds = creds
         out.epoch = sim.epoch
